@@ -60,8 +60,13 @@ func genC17(t *rapid.T) any {
 	n := rapid.IntRange(1, pick(25, 40)).Draw(t, "nops")
 	for i := 0; i < n; i++ {
 		op := C17Op{}
-		op.Kind = rapid.SampledFrom([]string{"set", "set", "set", "unset", "append", "add", "setf", "setf", "setf", "unsetf"}).Draw(t, "kind")
+		op.Kind = rapid.SampledFrom([]string{"set", "set", "set", "unset", "append", "add", "setf", "setf", "setf", "unsetf", "setf", "addf", "unsetd"}).Draw(t, "kind")
 		switch op.Kind {
+		case "addf": // a further line on a fielded header, shaped like sub-fields
+			op.Name = rapid.SampledFrom(c17Fielded).Draw(t, "fname")
+			op.Val = rapid.SampledFrom([]string{"bb=9", "a=7", "k-1=z", "plain", "a=1, bb=2"}).Draw(t, "addfval")
+		case "unsetd": // whole-header unset of a fielded header
+			op.Name = rapid.SampledFrom(c17Fielded).Draw(t, "fname")
 		case "setf", "unsetf":
 			op.Name = rapid.SampledFrom(c17Fielded).Draw(t, "fname")
 			op.Key = rapid.SampledFrom(c17Keys).Draw(t, "key")
@@ -89,13 +94,19 @@ func genC17(t *rapid.T) any {
 // ---------------------------------------------------------------------------
 // model
 
-type c17Field struct{ key, val string }
+type c17Field struct {
+	key, val string
+	ns       bool // written from a not-set value: the statement leaves open whether it reads as empty or as not set
+}
 
 type c17Header struct {
 	set     bool
 	val     string
 	unknown bool // value not determined by the property statement (after += on a not-set header)
 	fields  []c17Field
+	// multi: the header got a further line through add; the statement does not say which line a
+	// sub-field is read from, only the frame law (a sub-field write changes that sub-field only) is checked
+	multi bool
 }
 
 type c17Model map[string]*c17Header
@@ -136,8 +147,11 @@ func (m c17Model) apply(op C17Op) {
 			*h = c17Header{set: true, val: firstLine(op.Val)}
 		}
 		// a previously readable value stays readable: nothing changes in the model
-	case "unset":
+	case "unset", "unsetd":
 		*h = c17Header{}
+	case "addf":
+		h.set = true
+		h.multi = true
 	case "setf":
 		out := h.fields[:0:0]
 		for _, f := range h.fields {
@@ -149,7 +163,7 @@ func (m c17Model) apply(op C17Op) {
 		if op.NS {
 			v = ""
 		}
-		h.fields = append(out, c17Field{op.Key, v})
+		h.fields = append(out, c17Field{op.Key, v, op.NS})
 		h.set = true
 	case "unsetf":
 		out := h.fields[:0:0]
@@ -202,9 +216,9 @@ func (d *c17VCL) apply(op C17Op) error {
 		src = fmt.Sprintf("set %s = %s;", d.target(op), val)
 	case "append":
 		src = fmt.Sprintf("set %s += %s;", d.target(op), val)
-	case "add":
+	case "add", "addf":
 		src = fmt.Sprintf("add %s = %s;", d.target(op), val)
-	case "unset", "unsetf":
+	case "unset", "unsetf", "unsetd":
 		src = fmt.Sprintf("unset %s;", d.target(op))
 	}
 	ss, err := parseSnippet(src)
@@ -256,9 +270,9 @@ func (d *c17Vars) apply(op C17Op) (err error) {
 		return d.vars.Set(sc, name, "=", val)
 	case "append":
 		return d.vars.Set(sc, name, "+=", val)
-	case "add":
+	case "add", "addf":
 		return d.vars.Add(sc, name, val)
-	case "unset", "unsetf":
+	case "unset", "unsetf", "unsetd":
 		return d.vars.Unset(sc, name)
 	}
 	return nil
@@ -307,11 +321,34 @@ func checkC17(raw json.RawMessage) iso.Result {
 	fieldOps := map[string]int{}
 	for i, op := range c.Ops {
 		col.Label("op:" + op.Kind)
+		// frame law for sub-fields: reads of the other sub-fields before the operation
+		type fk struct{ name, key string }
+		before := map[fk]string{}
+		if op.Kind == "setf" || op.Kind == "unsetf" {
+			for _, key := range c17Keys {
+				if key == op.Key {
+					continue
+				}
+				if got, ns, err := drv.read(op.Name + ":" + key); err == nil {
+					before[fk{op.Name, key}] = fmt.Sprintf("%q notset=%v", got, ns)
+				}
+			}
+		}
 		if err := drv.apply(op); err != nil {
 			col.Failf("step %d %+v failed: %v", i, op, err)
 			return col.Done()
 		}
 		m.apply(op)
+		for k, was := range before {
+			got, ns, err := drv.read(k.name + ":" + k.key)
+			if err != nil {
+				continue
+			}
+			if now := fmt.Sprintf("%q notset=%v", got, ns); now != was {
+				col.Failf("step %d (%+v) changed the other sub-field %s.http.%s:%s (%s -> %s)\n history: %s", i, op, c.Obj, k.name, k.key, was, now, c17History(c, i))
+				return col.Done()
+			}
+		}
 		lk := strings.ToLower(op.Name)
 		if op.Key == "" {
 			lastWriteSpelling[lk] = op.Name
@@ -346,6 +383,10 @@ func checkC17(raw json.RawMessage) iso.Result {
 		}
 		for _, name := range c17Fielded {
 			h := m.h(name)
+			if h.multi {
+				col.Label("fielded-header-with-added-line")
+				continue
+			}
 			for _, key := range c17Keys {
 				got, ns, err := drv.read(name + ":" + key)
 				if err != nil {
@@ -361,8 +402,8 @@ func checkC17(raw json.RawMessage) iso.Result {
 				switch {
 				case want == nil && !ns:
 					col.FailKey("", "after step %d (%+v): sub-field %s.http.%s:%s was removed/never written but reads %q\n history: %s", i, op, c.Obj, name, key, got, c17History(c, i))
-				case want != nil && want.val == "":
-					// empty/not-set sub-field values may read back as empty or not set
+				case want != nil && want.val == "" && want.ns:
+					// a sub-field written from a not-set value may read back as empty or as not set
 					if !ns && got != "" {
 						col.FailKey("", "after step %d (%+v): empty sub-field %s:%s reads %q\n history: %s", i, op, name, key, got, c17History(c, i))
 					}
